@@ -64,7 +64,7 @@ def restore_one_vc(S, prefix='restore'):
                   ('trashcli.fs', 'RealMove.move'),
                   ('trashcli.fs', 'RealMkDirs.mkdirs'),
                   ('trashcli.fs', 'RealRemoveFile.remove_file')):
-            S.resolve(*q)
+            S.note_function(*q)
         try:
             V.I.call_function(fv, [], {'self': restorer, 'trashed_file': tf,
                                        'overwrite': overwrite})
@@ -186,9 +186,9 @@ def sort_vc(S, prefix='sort'):
         gen_src = V.I.lookup('trashcli.restore.run_restore_action',
                              'RunRestoreAction.all_files_trashed_from_path')
         fv = S.resolve('trashcli.restore.sort_method', 'sort_files')
-        S.resolve('trashcli.restore.sort_method', 'sorter_for')
-        S.resolve('trashcli.restore.sort_method', 'SortFunction.sort_files')
-        S.resolve('trashcli.restore.sort_method', 'NoSorter.sort_files')
+        S.note_function('trashcli.restore.sort_method', 'sorter_for')
+        S.note_function('trashcli.restore.sort_method', 'SortFunction.sort_files')
+        S.note_function('trashcli.restore.sort_method', 'NoSorter.sort_files')
         from pyvc.values import IterV
         arg = IterV(iter(list(files))) if ctx.choose(2, 'as-iterator') else list(files)
         try:
@@ -295,7 +295,7 @@ def parse_part_vc(S, prefix='parse_indexes'):
         ctx = V.ctx
         fv = S.resolve('trashcli.restore.restore_asking_the_user',
                        'parse_indexes')
-        S.resolve('trashcli.restore.restore_asking_the_user', 'parse_int_index')
+        S.note_function('trashcli.restore.restore_asking_the_user', 'parse_int_index')
         reply = arg_str('user_input')
         n = arg_int('len_trashed_files')
         ctx.assume(T(n) >= 0)
@@ -412,7 +412,7 @@ def pipeline_vc(S, prefix='pipeline'):
                   ('trashcli.restore.real_output', 'RealOutput.append_event'),
                   ('trashcli.restore.real_output', 'RealOutput.die'),
                   ('trashcli.restore.output_recorder', 'OutputRecorder.apply_to')):
-            S.resolve(*q)
+            S.note_function(*q)
         outcome = 'return'
         orig_split = V.I.lib.split_model
 
@@ -551,7 +551,7 @@ def restore_twice_vc(S, prefix='restore-twice'):
         ctx.assume(fs.lkind(tf1.items[3].t) != ABSENT)
         ctx.assume(fs.lkind(tf1.items[3].t) != DIR)
         fv = S.resolve('trashcli.restore.restorer', 'Restorer.restore_trashed_file')
-        S.resolve('trashcli.restore.file_system',
+        S.note_function('trashcli.restore.file_system',
                   'RealRestoreReadFileSystem.path_exists')
         try:
             V.I.call_function(fv, [], {'self': restorer, 'trashed_file': tf1,
